@@ -124,7 +124,7 @@ def gen_setter(rng: Any, ssh_safe: bool, tokens: bool = True) -> Tuple[str, str]
         args = rng.choice([['1G'], ['1G', '1h'], ['default', 'none'], ['default'], ['500M', 'none'], ['default', '3600']])
     elif k < 0.975:
         opt = 'ForwardAgent'
-        args = [rng.choice(['yes', 'no', '/tmp/agent'] if ssh_safe else
+        args = [rng.choice(['yes', 'no'] if ssh_safe else    # (ssh -G shows a path even after `no`)
                            ['yes', 'no', '/tmp/agent-%h' if tokens else '/tmp/agent', '$SSH_AUTH_SOCK'])]
     elif k < 0.985:
         opt = 'CanonicalizeHostname'
